@@ -1760,6 +1760,13 @@ func (it *oInterp) call(fn *ssa.Function, site ssa.Instruction, cc *ssa.CallComm
 			carries = true
 		}
 	}
+	// a look-up helper of the map forest that hands out a position (read from the leaf index and translated):
+	// its body decides the layout of what it returns
+	if !carries && sc.Signature.Recv() != nil && it.p.localNamed(sc.Signature.Recv().Type(), "MapPollard") && sc.Blocks != nil {
+		if res := sc.Signature.Results(); res.Len() >= 1 && isUint64(res.At(0).Type()) {
+			carries = true
+		}
+	}
 	if !carries {
 		if hasSlices(sc.Signature.Results()) {
 			return it.typedShape(sc.Signature.Results(), it.akey(site, ""), name+"@"+posOf(it.p, site), st, OC{ocBuilt, it.site(site)})
